@@ -193,7 +193,47 @@ fn run_sweep(s: &Sweep) -> SweepResult {
     r
 }
 
+pub fn replay(path: &str) -> i32 {
+    let s = std::fs::read_to_string(path).expect("MACHINERY: cannot read replay file");
+    let v: Value = serde_json::from_str(&s).expect("MACHINERY: replay JSON");
+    let r = if v.get("replay").is_some() { &v["replay"] } else { &v };
+    let alter = match r["alter"].as_str().unwrap_or("None") {
+        "Some(DestAddr)" => Some(Alter::DestAddr),
+        "Some(FixedPort)" => Some(Alter::FixedPort),
+        "Some(FlowPort)" => Some(Alter::FlowPort),
+        "Some(Protocol)" => Some(Alter::Protocol),
+        "Some(Magic)" => Some(Alter::Magic),
+        "Some(IcmpId)" => Some(Alter::IcmpId),
+        _ => None,
+    };
+    let sw = Sweep {
+        cell: all_cells()[r["cell_index"].as_u64().unwrap() as usize],
+        init: r["initial_sequence"].as_u64().unwrap() as u16,
+        rounds: r["rounds"].as_u64().unwrap() as usize,
+        offset: r["shape_offset"].as_u64().unwrap() as usize,
+        target_mode: r["target_mode"].as_bool().unwrap(),
+        alter,
+        packet_size: r["packet_size"].as_u64().unwrap() as u16,
+    };
+    println!("replay C02: {sw:?}");
+    let res = run_sweep(&sw);
+    println!("{} probes, {} recognised, {} distinct sequences", res.probes, res.completed, res.seqs.len());
+    for (k, d) in res.bad.iter().take(10) {
+        println!("DISCREPANCY {k}: {d}");
+    }
+    if res.bad.is_empty() {
+        println!("replay: property held");
+        0
+    } else {
+        println!("VIOLATION property=C02 replay={path}");
+        1
+    }
+}
+
 pub fn run(args: &Args) -> i32 {
+    if let Some(path) = &args.replay {
+        return replay(path);
+    }
     let tier = args.tier;
     let mut rep = Report::new("C02", tier, "exploration");
     let mut sweeps: Vec<Sweep> = vec![];
